@@ -124,7 +124,8 @@ def write_nt(rows, flags=frozenset(), quads=False):
 
 TTL_FLAGS = ["single-quote", "long-quote", "long-single-quote", "uchar", "raw", "prefix", "sparql-prefix", "empty-prefix", "base", "sparql-base",
              "relative", "predicate-list", "object-list", "anon", "collection", "numeric", "a", "comments", "tight", "newlines", "bnode-labels",
-             "lang-case", "pn-local-escape", "trig-graph-keyword", "trig-bare-default"]
+             "lang-case", "pn-local-escape", "semicolons", "nested-anon", "odd-prefix", "redefine", "dot-relative", "keyword-case", "no-final-eol", "crlf",
+             "trig-graph-keyword", "trig-bare-default", "trig-no-final-dot", "trig-split-graph"]
 
 PN_LOCAL_OK = re.compile(r"^[A-Za-z_][A-Za-z0-9_\-]*$")
 PN_LOCAL_ESC = set("_~.-!$&'()*+,;=/?#@%")
@@ -150,7 +151,9 @@ class TurtleWriter:
             self.prefix = "ex"
         if "empty-prefix" in flags:
             self.prefix = ""
-        self.base = EX if ("base" in flags or "sparql-base" in flags or "relative" in flags) else None
+        if "odd-prefix" in flags and self.prefix != "":
+            self.prefix = "e.x-1\u00b7y"  # PN_PREFIX ::= PN_CHARS_BASE ((PN_CHARS | '.')* PN_CHARS)?
+        self.base = EX if ("base" in flags or "sparql-base" in flags or "relative" in flags or "dot-relative" in flags) else None
 
     def iri(self, iri, predicate=False):
         if predicate and "a" in self.flags and iri == RDF + "type":
@@ -164,6 +167,8 @@ class TurtleWriter:
                 return "%s:%s" % (self.prefix, esc)
         if self.base and iri.startswith(self.base) and ":" not in iri[len(self.base):].split("/")[0].split("#")[0].split("?")[0]:
             rel = iri[len(self.base):]
+            if "dot-relative" in self.flags and rel and rel[0] not in "#?/" and not rel.startswith("."):
+                rel = "./" + rel  # RFC 3986 5.2.4: "./" segments are removed on resolution
             return iri_text(rel)
         return iri_text(iri)
 
@@ -193,10 +198,17 @@ class TurtleWriter:
 
     def header(self):
         out = []
+        kc = "keyword-case" in self.flags
         if self.base:
-            out.append("BASE <%s>" % self.base if "sparql-base" in self.flags else "@base <%s> ." % self.base)
+            if "redefine" in self.flags:  # a later @base replaces an earlier one, and may itself be relative to it
+                out.append("@base <http://ex.org/sub/dir/> .")
+                out.append(("bAsE <../../>" if kc else "BASE <../../>") if "sparql-base" in self.flags else "@base <../../> .")
+            else:
+                out.append(("bAsE <%s>" if kc else "BASE <%s>") % self.base if "sparql-base" in self.flags else "@base <%s> ." % self.base)
         if self.prefix is not None:
-            out.append("PREFIX %s: <%s>" % (self.prefix, EX) if "sparql-prefix" in self.flags else "@prefix %s: <%s> ." % (self.prefix, EX))
+            if "redefine" in self.flags:  # a later declaration of the same prefix replaces the earlier one
+                out.append("@prefix %s: <http://wrong.invalid/> ." % self.prefix)
+            out.append(("prefix %s: <%s>" if kc else "PREFIX %s: <%s>") % (self.prefix, EX) if "sparql-prefix" in self.flags else "@prefix %s: <%s> ." % (self.prefix, EX))
         return out
 
     def triples_block(self, triples, protected=frozenset()):
@@ -235,6 +247,54 @@ class TurtleWriter:
                     inline[h] = "( %s )" % " ".join(self.term(i) for i in items)
                     for cc in cells:
                         consumed.update(subj_of[cc])
+        if "nested-anon" in flags:
+            # blank-node trees: a node referenced at most once, not protected, not a list cell already consumed, no cycle
+            def tree_text(b, path):
+                ts = sorted(subj_of.get(b, []), key=repr)
+                parts = []
+                for t in ts:
+                    o = t[2]
+                    if is_b(o):
+                        if o in inline and inline[o] is not None:
+                            parts.append("%s %s" % (self.term(t[1], True), inline[o]))
+                            continue
+                        if o in path or refs.get(o, 0) != 1 or o in protected or any(x in consumed for x in subj_of.get(o, [])):
+                            return None
+                        sub = tree_text(o, path | {o})
+                        if sub is None:
+                            return None
+                        parts.append("%s %s" % (self.term(t[1], True), sub))
+                    else:
+                        parts.append("%s %s" % (self.term(t[1], True), self.term(o)))
+                return "[ %s ]" % " ; ".join(parts) if parts else "[]"
+
+            def mark(b):
+                for t in subj_of.get(b, []):
+                    consumed.add(t)
+                    if is_b(t[2]) and not (t[2] in inline and inline[t[2]] is not None):
+                        mark(t[2])
+
+            all_b = {x for t in triples for x in (t[0], t[2]) if is_b(x)}
+            roots = [b for b in sorted(all_b, key=repr) if b not in protected and b not in inline and refs.get(b, 0) <= 1
+                     and not any(t in consumed for t in subj_of.get(b, []))]
+            # outermost first: a root is a candidate not referenced from another candidate's tree
+            for b in roots:
+                if any(t in consumed for t in subj_of.get(b, [])) or b in inline:
+                    continue
+                parent = [t[0] for t in triples if t[2] == b]
+                if parent and is_b(parent[0]) and parent[0] in roots and parent[0] != b:
+                    continue  # will be written inside its parent
+                txt = tree_text(b, {b})
+                if txt is None:
+                    continue
+                if refs.get(b, 0) == 1:
+                    inline[b] = txt
+                    mark(b)
+                elif subj_of.get(b):
+                    inline[b] = None
+                    self._subject_text = getattr(self, "_subject_text", {})
+                    self._subject_text[b] = txt
+                    mark(b)
         if "anon" in flags:
             for b, ts in subj_of.items():
                 if is_b(b) and b not in protected and b not in inline and refs.get(b, 0) <= 1 and not any(is_b(t[2]) for t in ts) and not any(t in consumed for t in ts) \
@@ -248,18 +308,22 @@ class TurtleWriter:
                         consumed.update(ts)
         stmts = []
         for b, txt in inline.items():
-            if txt is None:
+            if txt is None and b in getattr(self, "_subject_text", {}):
+                stmts.append("%s ." % self._subject_text[b])
+            elif txt is None:
                 ts = subj_of[b]
                 stmts.append("[ %s ] ." % " ; ".join("%s %s" % (self.term(t[1], True), self.term(t[2])) for t in sorted(ts, key=repr)))
 
         def obj(o):
             if o in inline and inline[o] is not None:
                 return inline[o]
+            if o == ("I", RDF + "nil") and "collection" in flags:
+                return "( )" if "tight" not in flags else "()"
             return self.term(o)
 
         rest = sorted(triples - consumed, key=repr)
         sep = "" if "tight" in flags else " "
-        if "predicate-list" in flags or "object-list" in flags:
+        if "predicate-list" in flags or "object-list" in flags or "semicolons" in flags:
             by_s = {}
             for t in rest:
                 by_s.setdefault(t[0], []).append(t)
@@ -273,7 +337,9 @@ class TurtleWriter:
                         parts.append("%s %s" % (self.term(p, True), " , ".join(obj(o) for o in objs)))
                     else:
                         parts += ["%s %s" % (self.term(p, True), obj(o)) for o in objs]
-                if "predicate-list" in flags:
+                if "semicolons" in flags:  # predicateObjectList ::= verb objectList (';' (verb objectList)?)*
+                    stmts.append("%s %s%s." % (self.term(s), " ;; ".join(parts) + " ; ;", sep))
+                elif "predicate-list" in flags:
                     stmts.append("%s %s%s." % (self.term(s), " ;\n    ".join(parts) + (" ;" if "newlines" in flags else ""), sep))
                 else:
                     for part in parts:
@@ -289,10 +355,19 @@ class TurtleWriter:
         return stmts
 
 
+def _finish(lines, rows, flags):
+    doc = "\n".join(lines)
+    if "no-final-eol" not in flags:
+        doc += "\n"
+    if "crlf" in flags and not any(x is not None and x[0] == "L" and "\n" in x[1] for r in rows for x in r):
+        doc = doc.replace("\n", "\r\n")  # (only where no string literal can contain a raw line feed)
+    return doc
+
+
 def write_turtle(rows, flags=frozenset()):
     w = TurtleWriter(flags)
     body = w.triples_block({r[:3] for r in rows})
-    return "\n".join(w.header() + body) + "\n"
+    return _finish(w.header() + body, rows, flags)
 
 
 def write_trig(rows, flags=frozenset()):
@@ -310,17 +385,28 @@ def write_trig(rows, flags=frozenset()):
         if is_b(x):
             occurs.setdefault(x, set()).add("as-graph-name")
     protected = frozenset(b for b, gs in occurs.items() if len(gs) > 1)
+    def strip_dot(block):
+        # triplesBlock ::= triples ('.' triplesBlock?)?  -- the last '.' inside braces is optional
+        if "trig-no-final-dot" in flags and block and "comments" not in flags and block[-1].endswith("."):
+            return block[:-1] + [block[-1][:-1]]
+        return block
+
     for g in sorted(by_g, key=repr):
-        block = w.triples_block(by_g[g], protected)
-        if g is None:
-            if "trig-bare-default" in flags:
-                out += block
+        parts = [by_g[g]]
+        if "trig-split-graph" in flags and len(by_g[g]) > 1 and not any(is_b(x) and x not in protected for t in by_g[g] for x in t):
+            ts = sorted(by_g[g], key=repr)
+            parts = [set(ts[:1]), set(ts[1:])]  # the same graph may be written as several blocks
+        for part in parts:
+            block = strip_dot(w.triples_block(part, protected))
+            if g is None:
+                if "trig-bare-default" in flags:
+                    out += w.triples_block(part, protected)
+                else:
+                    out.append("{ %s\n}" % "\n".join(block))
             else:
-                out.append("{ %s\n}" % "\n".join(block))
-        else:
-            kw = "GRAPH " if "trig-graph-keyword" in flags else ""
-            out.append("%s%s { %s\n}" % (kw, w.term(g), "\n".join(block)))
-    return "\n".join(w.header() + out) + "\n"
+                kw = ("graph " if "keyword-case" in flags else "GRAPH ") if "trig-graph-keyword" in flags else ""
+                out.append("%s%s { %s\n}" % (kw, w.term(g), "\n".join(block)))
+    return _finish(w.header() + out, rows, flags)
 
 
 # ---------------------------------------------------------------------------------------------
@@ -633,14 +719,14 @@ def write_jsonld(rows, flags=frozenset(), dataset=False):
                     continue
                 pkey = compact_iri(p[1])
                 if "list" in flags and o[0] == "B" and is_list(o):
-                    items, c = [], o
+                    items, cells, c = [], [], o
                     while c != ("I", RDF + "nil"):
                         ts = subj_of[c]
-                        for x in ts:
-                            consumed.add(x)
+                        cells += ts
                         items.append([x[2] for x in ts if x[1][1] == RDF + "first"][0])
                         c = [x[2] for x in ts if x[1][1] == RDF + "rest"][0]
-                    if not any(i[0] == "B" and i in subj_of for i in items):
+                    if not any(i[0] == "B" and i in subj_of for i in items) and not any(x in consumed for x in cells):
+                        consumed.update(cells)
                         v = {"@list": [value(i, None) for i in items]}
                         node.setdefault(pkey, []).append(v)
                         continue
